@@ -4,6 +4,7 @@ package security
 // C12 — query tokens (signed host selection): QueryInfo.
 
 import (
+
 	"github.com/bolkedebruin/rdpgw/cmd/rdpgw/identity"
 	"github.com/bolkedebruin/rdpgw/cmd/rdpgw/protocol"
 )
@@ -166,6 +167,39 @@ func VP_C12_queryinfo() {
 		vpAssert(int64(*vpTokExp) >= now-60, "query-token-not-expired-beyond-leeway")
 	}
 	vpAssert(host == vpTokSubject, "host-is-the-verified-subject")
+}
+
+//vp:property C12 C02
+//vp:bounds the same query token (a correctly described token as in VP_C12_queryinfo, expiry arbitrary) accepted once and then presented again at an arbitrary later instant
+//vp:assume as VP_C12_queryinfo; go-cache contract for code that starts to remember things
+//vp:reach second-ok second-refused
+func VP_C12_queryinfo_twice() {
+	vpResetJose()
+	vpSetKeys()
+	vpClaimLen = 2
+	issuer := vpStringN("cfg-issuer", 5)
+	tok := vpStringN("qtoken", 3)
+	_, err1 := QueryInfo(vpCtxWith(nil, nil), tok, issuer)
+	vpAssume(err1 == nil) // (a token refused the first time is VP_C12_queryinfo's business)
+	vpParseCalls, vpSigAlgs, vpTokAlgs, vpClaimsKeyLog = 0, nil, nil, nil
+	vpNow() // time passes: the second presentation happens at an arbitrary later instant
+	presented := vpLastNow
+	host2, err2 := QueryInfo(vpCtxWith(nil, nil), tok, issuer)
+	vpObserveBool("ok1", err1 == nil)
+	vpObserveBool("ok2", err2 == nil)
+	if err2 != nil {
+		vpReach("second-refused")
+		return
+	}
+	vpReach("second-ok")
+	// every acceptance stands on its own: signed by the query key, issued by the configured issuer, and not
+	// expired at the moment of THIS presentation
+	vpAssert(vpTokKind == 1 && vpTokSignedBy == vpKeyQuery, "query-token-mac-made-under-the-query-signing-key")
+	vpAssert(issuer == "" || vpTokIssuer == issuer, "query-token-issuer-as-configured")
+	if vpTokExp != nil {
+		vpAssert(int64(*vpTokExp) >= presented-60, "query-token-not-expired-at-its-second-presentation")
+	}
+	vpAssert(host2 == vpTokSubject, "host-is-the-verified-subject")
 }
 
 //vp:property C12
